@@ -133,6 +133,11 @@ func (tr *fnTrans) applyContract(in *ssa.Call, c *Contract, key string, args []T
 	} else if len(rts) > 1 {
 		tr.tuples[in] = rts
 	}
+	in0 := "true"
+	if tr.cur != nil {
+		in0 = tr.inB[tr.cur]
+	}
+	tr.applyHints("after:", key, tr.counters["call:"+key], in0, in.Pos())
 }
 
 func (tr *fnTrans) applyContractSig(c *Contract, key string, args []Term, sig *types.Signature, vname string, pos token.Pos, onError func()) []Term {
@@ -174,34 +179,7 @@ func (tr *fnTrans) applyContractSig(c *Contract, key string, args []Term, sig *t
 	tr.counters["call:"+key]++
 	k := tr.counters["call:"+key]
 	// hints: facts about the state just before this call, proved and then assumed
-	if tr.c != nil {
-		short := key
-		if i := strings.Index(short, "."); i >= 0 {
-			short = short[i+1:]
-		}
-		for _, site := range []string{fmt.Sprintf("%s#%d", key, k), fmt.Sprintf("%s#%d", short, k)} {
-			for i, h := range tr.c.Hints[site] {
-				henv := tr.env()
-				henv.oldHeap = map[string]string{}
-				// names of locals visible at this point (dominating definitions, address-taken cells, phis of this block)
-				if tr.cur != nil {
-					le := tr.loopEnv(&loopInfo{header: tr.cur, inclSelf: true}, func(p *ssa.Phi) Term { return tr.vals[p] }, henv.heap, tr.alloc)
-					for n, v := range le.vars {
-						if _, isParam := henv.vars[n]; !isParam {
-							henv.vars[n] = v
-						}
-					}
-				}
-				t, err := tr.spec(h.E, henv)
-				if err != nil {
-					tr.errorf("%s: hint %s: %v", tr.key, h.Src, err)
-					continue
-				}
-				tr.oblige("hint", fmt.Sprintf("hint[%s:%s]", site, labelOr(h.Label, i)), t.S, h.Src, pos)
-				tr.hyp(implies(in0, t.S))
-			}
-		}
-	}
+	tr.applyHints("", key, k, in0, pos)
 	for i, r := range c.Requires {
 		t, err := tr.spec(r.E, pre)
 		if err != nil {
@@ -294,6 +272,40 @@ func (tr *fnTrans) applyContractSig(c *Contract, key string, args []Term, sig *t
 		tr.hyp(implies(in0, t.S))
 	}
 	return rts
+}
+
+func (tr *fnTrans) applyHints(prefix, key string, k int, in0 string, pos token.Pos) {
+	if tr.c == nil {
+		return
+	}
+	short := key
+	if i := strings.Index(short, "."); i >= 0 {
+		short = short[i+1:]
+	}
+	for _, site := range []string{fmt.Sprintf("%s%s#%d", prefix, key, k), fmt.Sprintf("%s%s#%d", prefix, short, k)} {
+		for i, h := range tr.c.Hints[site] {
+			henv := tr.env()
+			henv.oldHeap = map[string]string{}
+			if tr.cur != nil {
+				le := tr.loopEnv(&loopInfo{header: tr.cur, inclSelf: true}, func(p *ssa.Phi) Term { return tr.vals[p] }, henv.heap, tr.alloc)
+				for n, v := range le.vars {
+					if _, isParam := henv.vars[n]; !isParam {
+						henv.vars[n] = v
+					}
+				}
+			}
+			t, err := tr.spec(h.E, henv)
+			if err != nil {
+				if strings.Contains(err.Error(), "unknown identifier") {
+					continue // the hint speaks about locals that do not exist at this call site
+				}
+				tr.errorf("%s: hint %s: %v", tr.key, h.Src, err)
+				continue
+			}
+			tr.oblige("hint", fmt.Sprintf("hint[%s:%s]", site, labelOr(h.Label, i)), t.S, h.Src, pos)
+			tr.hyp(implies(in0, t.S))
+		}
+	}
 }
 
 func (tr *fnTrans) builtin(in *ssa.Call, name string, args []Term) {
